@@ -9,10 +9,13 @@ EXTENDS Integers, Sequences, TLC, Json, QuerySessionPool
 CONSTANT MaxLen
 VARIABLES d, log
 S == INSTANCE QuerySession
+\* (document 5 - expressions nested about as deep as an implementation accepts - is expensive per query: its sessions
+\* stay at length 3 in every tier)
+LenOf(doc) == IF doc = 5 /\ MaxLen > 3 THEN 3 ELSE MaxLen
 Init == d \in 1..Len(QDocs) /\ log = <<>>
-Next == S!Next(Len(QDocs[d].queries)) /\ UNCHANGED d
+Next == Len(log) < LenOf(d) /\ S!Next(Len(QDocs[d].queries)) /\ UNCHANGED d
 Spec == Init /\ [][Next]_<<d, log>>
-InvEmit == Len(log) = MaxLen => PrintT(<<"REPLAY", ToJson([k |-> "qsession", d |-> d, qs |-> log])>>)
+InvEmit == Len(log) = LenOf(d) => PrintT(<<"REPLAY", ToJson([k |-> "qsession", d |-> d, qs |-> log])>>)
 ASSUME \A i \in 1..Len(QDocs) :
          PrintT(<<"DOC", ToJson([k |-> "qdoc", d |-> i, text |-> QDocs[i].text, queries |-> QDocs[i].queries])>>)
 =============================================================================
